@@ -88,12 +88,15 @@ type entry struct {
 	// passes: how many times the adapter itself decodes / copies the input (pipeline of several real components);
 	// the allocation bound is passes*64*len+8MiB
 	passes int
-	pairs    bool // thorough: all pairs of F1 mutations
-	// deep: thorough-only extra options (S<=3 for sub-microsecond decoders)
-	smallDeep bool
+	pairs  bool // thorough: all pairs of F1 mutations
+	// pairSeeds > 0 restricts the pairs to the first seeds; pairLight restricts both factors to the structural
+	// operations (remove / empty / boundary lengths / duplicate / small integers)
+	pairSeeds int
+	pairLight bool
 
 	// results
 	cases, accepted, rejected, panics atomic.Int64
+	done                              bool // the quick-tier enumeration of this entry ran to its end
 }
 
 var entries []*entry
@@ -208,6 +211,15 @@ func (h *harness) record(key, what string, rc replayCase, size int, hexIn string
 	}
 }
 
+func (h *harness) confirmed(key string) int {
+	h.mu.Lock()
+	defer h.mu.Unlock()
+	if f := h.findings[key]; f != nil {
+		return f.count
+	}
+	return 0
+}
+
 func hexShort(b []byte) string {
 	if len(b) > 400 {
 		return hex.EncodeToString(b[:400]) + fmt.Sprintf("...(%d bytes)", len(b))
@@ -242,6 +254,10 @@ func (h *harness) exec(e *entry, w any, si int, kind, label string, data []byte,
 	case err == nil:
 		e.accepted.Add(1)
 	default:
+		if ve, ok := err.(*violationErr); ok {
+			class = "violation:" + ve.key
+			h.record(ve.key, fmt.Sprintf("%s: %s on seed %q mutation %s; input (%d bytes) %s", e.name, ve.what, e.seeds[si].name, label, len(data), hexShort(data)), rc, len(data), hexShort(data))
+		}
 		e.rejected.Add(1)
 	}
 	if dur > hangLimit {
@@ -262,8 +278,25 @@ func (h *harness) exec(e *entry, w any, si int, kind, label string, data []byte,
 		passes = 1
 	}
 	limit := uint64(passes*allocFactor*len(data) + allocSlack)
-	if a1-a0 > limit {
-		// other goroutines allocate too: measure again alone, exactly, three times
+	over := a1-a0 > limit
+	if over {
+		// The counter is process wide: other goroutines allocate too. A real excess shows up in every repetition,
+		// their noise does not: repeat twice next to them before stopping everybody for the exact measurement.
+		for k := 0; k < 2 && over; k++ {
+			h.excl.RLock()
+			b0 := allocNow(samples)
+			guarded(func() error { return e.call(w, si, data) })
+			over = allocNow(samples)-b0 > limit
+			h.excl.RUnlock()
+		}
+	}
+	akey := "alloc:" + e.name + ":" + allocKind(kind, label)
+	if over && h.confirmed(akey) >= 1 {
+		over = false // this class of input is already established as a finding: no need to stop everybody again
+		c.Count("alloc_more_of_known_class", 1)
+	}
+	if over {
+		// measure again alone, exactly, three times
 		h.excl.Lock()
 		c.Count("alloc_remeasured", 1)
 		if os.Getenv("C11_DEBUG") != "" {
@@ -288,7 +321,7 @@ func (h *harness) exec(e *entry, w any, si int, kind, label string, data []byte,
 		c.Count("alloc_remeasure_ms", time.Since(tEx).Milliseconds())
 		if over == 3 {
 			c.Count("alloc_flagged", 1)
-			h.record("alloc:"+e.name+":"+allocKind(kind, label), fmt.Sprintf("%s: %d bytes allocated for a %d byte input (limit %d, measured alone 3 times) on seed %q mutation %s; input %s", e.name, worst, len(data), limit, e.seeds[si].name, label, hexShort(data)), rc, len(data), hexShort(data))
+			h.record(akey, fmt.Sprintf("%s: %d bytes allocated for a %d byte input (limit %d, measured alone 3 times) on seed %q mutation %s; input %s", e.name, worst, len(data), limit, e.seeds[si].name, label, hexShort(data)), rc, len(data), hexShort(data))
 		}
 	}
 	if dk := e.name + "|" + kind + "|" + class; !wc.seen[dk] {
@@ -331,12 +364,20 @@ func allocKind(kind, label string) string {
 	if i := strings.LastIndexByte(op, ':'); i >= 0 {
 		op = op[i+1:]
 	}
+	if i := strings.IndexByte(op, '='); i >= 0 {
+		op = op[:i]
+	}
 	op = strings.Trim(digits.ReplaceAllString(op, ""), "=- ")
 	if op == "" {
 		return kind
 	}
 	return kind + "-" + op
 }
+
+// violationErr is returned by an adapter whose own oracle (a differential one) failed: not a rejection.
+type violationErr struct{ key, what string }
+
+func (v *violationErr) Error() string { return "oracle: " + v.what }
 
 type job struct {
 	si          int
@@ -432,20 +473,33 @@ func (h *harness) enumerate(e *entry, thorough bool, phase int, yield func(j job
 				return
 			}
 		case 2: // thorough: all pairs of F1 mutations
-			if !e.pairs {
+			if !e.pairs || (e.pairSeeds > 0 && si >= e.pairSeeds) {
 				continue
 			}
 			o := e.opts(true)
 			o.Kinds = "F1"
+			keep := func(l string) bool {
+				if strings.Contains(l, ":rep") {
+					return false
+				}
+				if !e.pairLight {
+					return true
+				}
+				op := l[strings.LastIndexByte(l, ':')+1:]
+				switch {
+				case op == "remove", op == "dup", op == "empty", strings.HasPrefix(op, "len"):
+					return true
+				case strings.HasPrefix(op, "varint="):
+					return len(op) <= len("varint=")+1
+				}
+				return false
+			}
 			ok := mutate.Enumerate(sd.data, o, func(_, l1 string, d1 []byte) bool {
-				if strings.Contains(l1, ":rep") || len(d1) > 4*len(sd.data)+256 {
+				if !keep(l1) {
 					return true
 				}
 				return mutate.Enumerate(d1, o, func(_, l2 string, d2 []byte) bool {
-					if strings.Contains(l2, ":rep") {
-						return true
-					}
-					if string(d2) == string(sd.data) {
+					if !keep(l2) || string(d2) == string(sd.data) {
 						return true
 					}
 					return y("F1xF1", l1+"|"+l2, d2)
@@ -551,7 +605,7 @@ func TestCheck(t *testing.T) {
 			"B2 every truncation, +1 byte, +1 KiB, B3 every length-delimited field (protowire walk) x length in {0,len-1,len+1,remaining,2^31-1,2^63} spliced and with enclosing lengths re-computed, " +
 			"F1 every wire field to the stated depth removed / duplicated / x1024 / x65536 / zero / boundary lengths 1,11,12,13,31,32,33,63,64,65 / integer boundaries / other wire type, " +
 			"F2 the same mutations applied to the signed inner bytes and then re-signed with a real key and the CID recomputed (ACL records, tree changes), plus typed hostile records per content kind " +
-			"(thorough: all pairs of F1 mutations of the signed ACL data). Mutants byte-identical to the seed are skipped. " +
+			"(thorough: all 255 byte values, S <= 3, and all pairs of F1 mutations: of the keep-identity decoder's input in full, of the signed data of the five ciphertext-bearing ACL record kinds for the structural operations remove / empty / boundary length / duplicate / small integer). Mutants byte-identical to the seed are skipped. " +
 			"distinct = (entry point, mutation kind, outcome class) where the outcome class is ok / the normalised error text / the panic site",
 		Assumptions: []string{
 			"crypto/rand.Reader is replaced by a deterministic stream while seeds are built, so labels denote the same bytes in every run",
@@ -575,6 +629,17 @@ func body(c *vk.Ctx) {
 	debug.SetGCPercent(200)
 	h := &harness{c: c, findings: map[string]*finding{}}
 	buildEntries(c)
+	if only := os.Getenv("C11_ONLY"); only != "" {
+		// debugging aid: run a subset of the entry points (never set by /verif/run)
+		var keep []*entry
+		for _, e := range entries {
+			if strings.Contains(e.name, only) {
+				keep = append(keep, e)
+			}
+		}
+		entries = keep
+		c.NotExhaustive("C11_ONLY=" + only)
+	}
 
 	if c.Replay != "" {
 		var rf struct {
@@ -634,9 +699,11 @@ func body(c *vk.Ctx) {
 			before := e.cases.Load()
 			if !h.runEntry(e, thorough, phase) {
 				c.NotExhaustive(fmt.Sprintf("deadline reached in phase %d inside entry %s", phase, e.name))
+			} else if phase == 0 {
+				e.done = true
 			}
-			if n := e.cases.Load() - before; n > 0 {
-				c.Note("phase %d %-28s %8d cases in %v", phase, e.name, n, time.Since(t0).Round(time.Millisecond))
+			if n := e.cases.Load() - before; n > 0 && os.Getenv("C11_DEBUG") != "" {
+				fmt.Fprintf(os.Stderr, "phase %d %-44s %8d cases in %v\n", phase, e.name, n, time.Since(t0).Round(time.Millisecond))
 			}
 		}
 	}
@@ -645,12 +712,40 @@ func body(c *vk.Ctx) {
 	for _, e := range entries {
 		total += e.cases.Load()
 		c.Bound("entry:"+e.name, map[string]any{"what": e.what, "seeds": len(e.seeds), "cases": e.cases.Load(), "accepted": e.accepted.Load(), "rejected": e.rejected.Load(), "panics": e.panics.Load()})
+		if !e.done {
+			continue // cut by the deadline (recorded as not exhaustive): no vacuity verdict on a partial enumeration
+		}
 		c.Require(e.cases.Load() > 0, "entry %s ran no case", e.name)
 		if e.noAccept == "" {
 			c.Require(e.accepted.Load() > 0, "entry %s accepted no mutant (vacuity)", e.name)
 		}
 		if e.noReject == "" {
 			c.Require(e.rejected.Load()+e.panics.Load() > 0, "entry %s rejected no mutant (vacuity)", e.name)
+		}
+	}
+	// a few actual cases for the evidence: the 40th case of one entry per family
+	for _, name := range []string{"acl.ValidateRawRecord", "crypto.AESKey.Decrypt", "tree.AddRawChanges(verifying)", "sync.HandleHeadUpdate", "kv.KeyValueFromProto", "rpc.snappy.Unmarshal"} {
+		for _, e := range entries {
+			if e.name != name {
+				continue
+			}
+			n := 0
+			var pick job
+			h.enumerate(e, false, 0, func(j job) bool {
+				n++
+				pick = j
+				return n < 40
+			})
+			var w any
+			if e.worker != nil {
+				w = e.worker()
+			}
+			err, panicked, val, _ := guarded(func() error { return e.call(w, pick.si, pick.data) })
+			out := errClass(err)
+			if panicked {
+				out = fmt.Sprintf("panic: %v", val)
+			}
+			c.Sample(map[string]any{"entry": e.name, "seed": e.seeds[pick.si].name, "mutation": pick.label, "input_hex": hexShort(pick.data), "outcome": out})
 		}
 	}
 	c.Bound("entry_points", len(entries))
